@@ -6,7 +6,7 @@
            use, which definitions feed a phi.
    Part 2  Purity.analyze_expr / Purity.analyze as coded.
    Part 3  _DeadCodeEliminate / _Eliminator as coded, iterated until nothing is
-           eliminated:  dce fx = the pass;  dce fx_as_coded = AS CODED.
+           eliminated:  dce fx = the pass;  dce fx_as_coded = AS CODED (now), dce fx_unrepaired = before the repairs.
            The switches of `fixes` turn the known defects off one at a time:
              fix_phi    operands of an unused phi are deleted only if they are
                         themselves unused, feed no other phi and are pure
@@ -15,6 +15,7 @@
              fix_loop   an indexed assignment reached by a phi of an argument
                         also makes the callee impure (part of fix_alias' rule)
              fix_for    reaching_defs merges the loop target after a `for`
+             fix_ret    _visit_block drops what follows a statement that always returns
    Part 4  the validator `vdce` (liveness on the lock-step walk of (p, p')),
            `noeffect`, and the checked pass `dce_checked`. *)
 From Coq Require Import ZArith List Bool String.
@@ -23,9 +24,13 @@ From FpyV Require Import Lang.Transforms.SimpDefs.
 Import ListNotations.
 Open Scope Z_scope.
 
-Record fixes := Fixes { fix_phi : bool; fix_alias : bool; fix_for : bool }.
-Definition fx_as_coded := Fixes false false false.
-Definition fx_all := Fixes true true true.
+Record fixes := Fixes { fix_phi : bool; fix_alias : bool; fix_for : bool; fix_ret : bool }.
+(* the code before the repairs 1bc6253 (for target), 1107ce1 (phi operands), b7a6cfa (unreachable
+   statements after a return), bb63c4e (purity through an alias) were committed to /repo *)
+Definition fx_unrepaired := Fixes false false false false.
+(* the code as it is in /repo now: all four repairs in place *)
+Definition fx_as_coded := Fixes true true true true.
+Definition fx_all := Fixes true true true true.
 
 (* ================================================================ Part 1: def-use *)
 Inductive dkind :=
@@ -305,6 +310,28 @@ Definition nsites_block (b : block) : nat := fold_right (fun s n => nsites s + n
 
 Definition is_empty_block (b : block) : bool := match b with [SPass] => true | _ => false end.
 
+(* _Eliminator._always_returns *)
+Fixpoint always_returns (st : stmt) : bool :=
+  let lastr := fix lastr (l : list stmt) : bool :=
+      match l with
+      | [] => false
+      | x :: r => match r with [] => always_returns x | _ => lastr r end
+      end in
+  match st with
+  | SReturn _ => true
+  | SContext _ _ b => lastr b
+  | SIf _ t f => lastr t && lastr f
+  | _ => false
+  end.
+
+(* the prefix up to and including the first statement that always returns *)
+Fixpoint cut_ret (l : list stmt) : option (list stmt) :=
+  match l with
+  | [] => None
+  | x :: r => if always_returns x then Some [x]
+              else match cut_ret r with Some p => Some (x :: p) | None => None end
+  end.
+
 Section Elim.
 Variable P : program.
 Variable U : dus.
@@ -312,18 +339,22 @@ Variable dead : list nat.
 
 (* _Eliminator._visit_statement: the replacement statements, whether anything was eliminated *)
 Fixpoint el_stmt (site : nat) (st : stmt) {struct st} : list stmt * bool :=
-  let blk := fix go (site : nat) (b : list stmt) : list stmt * bool :=
+  let blk := fix go (site : nat) (b : list stmt) (acc : list stmt) : list stmt * bool :=
       match b with
-      | [] => ([], false)
+      | [] => (acc, false)
       | st :: r =>
           let '(o1, e1) := el_stmt site st in
-          let '(o2, e2) := go (site + nsites st)%nat r in
-          (o1 ++ o2, e1 || e2)
+          let acc' := acc ++ o1 in
+          match (if fix_ret fx then cut_ret acc' else None) with
+          | Some pre =>
+              (pre, e1 || Nat.ltb (List.length pre) (List.length acc') || negb (match r with [] => true | _ => false end))
+          | None => let '(o2, e2) := go (site + nsites st)%nat r acc' in (o2, e1 || e2)
+          end
       end in
   (* _visit_block: `pass` alone is left as it is; an emptied block gets a `pass` *)
   let vblock := fun (site : nat) (b : list stmt) =>
       if is_empty_block b then (b, false)
-      else let '(o, e) := blk site b in ((match o with [] => [SPass] | _ => o end), e) in
+      else let '(o, e) := blk site b [] in ((match o with [] => [SPass] | _ => o end), e) in
   match st with
   | SAssign p e =>
       if nmem site dead then ([], true)
@@ -390,14 +421,18 @@ Definition el_block (b : block) : block * bool :=
   if is_empty_block b then (b, false)
   else
     let '(o, e) :=
-      (fix go (site : nat) (b : list stmt) : list stmt * bool :=
+      (fix go (site : nat) (b : list stmt) (acc : list stmt) : list stmt * bool :=
          match b with
-         | [] => ([], false)
+         | [] => (acc, false)
          | st :: r =>
              let '(o1, e1) := el_stmt site st in
-             let '(o2, e2) := go (site + nsites st)%nat r in
-             (o1 ++ o2, e1 || e2)
-         end) O b in
+             let acc' := acc ++ o1 in
+             match (if fix_ret fx then cut_ret acc' else None) with
+             | Some pre =>
+                 (pre, e1 || Nat.ltb (List.length pre) (List.length acc') || negb (match r with [] => true | _ => false end))
+             | None => let '(o2, e2) := go (site + nsites st)%nat r acc' in (o2, e1 || e2)
+             end
+         end) O b [] in
     ((match o with [] => [SPass] | _ => o end), e).
 End Elim.
 
@@ -416,6 +451,7 @@ Definition dce (P : program) (fn : func) : block := dce_iter 40 P (f_params fn) 
 End DU.
 
 Definition dce_as_coded := dce fx_as_coded.
+Definition dce_unrepaired := dce fx_unrepaired.
 Definition dce_fixed := dce fx_all.
 
 (* ================================================================ Part 4: the validator *)
